@@ -10,7 +10,7 @@ From V Require FrameSorter.Model RecvStream.Model RecvStream.Spec RunLoop.Proofs
 Import ListNotations.
 Open Scope Z_scope.
 
-Definition ex_cfg_early : cfg := {| c_client := true; c_keepAlivePeriod := 0; c_maxIdleTimeout := 10000; c_hsIdleTimeout := 5000 |}.
+Definition ex_cfg_early : cfg := {| c_client := true; c_keepAlivePeriod := 0; c_maxIdleTimeout := 10000; c_hsIdleTimeout := 5000; c_ownAdvIdle := 0 |}.
 
 (** (a) Whatever the run loop went through before and whatever close requests and events follow, the
     first close request is the recorded cause; after the fan-out with it every API call (open, accept,
@@ -312,7 +312,7 @@ Print Assumptions C17_min_remote_idle_timeout_is_5s.
 
 (** the excess is attained: own 30 s, peer 1 s: timer at 5 s, RFC 1 s *)
 Example C17_idle_excess_example :
-  idleTimeout (applyTP (init {| c_client := true; c_keepAlivePeriod := 0; c_maxIdleTimeout := 30000000000; c_hsIdleTimeout := 0 |} 1)
+  idleTimeout (applyTP (init {| c_client := true; c_keepAlivePeriod := 0; c_maxIdleTimeout := 30000000000; c_hsIdleTimeout := 0; c_ownAdvIdle := 0 |} 1)
                        (parse_idle 1000000000) 1000000000) = 5000000000.
 Proof. reflexivity. Qed.
 Print Assumptions C17_idle_excess_example.
@@ -400,7 +400,7 @@ Print Assumptions C17_keepalive_history.
 
 (** non-vacuity: a history with interleaved sends, wake-ups and answers that satisfies the hypotheses *)
 Example C17_keepalive_history_example :
-  let s0 := step (step (init {| c_client := true; c_keepAlivePeriod := 4000; c_maxIdleTimeout := 10000; c_hsIdleTimeout := 5000 |} 1000)
+  let s0 := step (step (init {| c_client := true; c_keepAlivePeriod := 4000; c_maxIdleTimeout := 10000; c_hsIdleTimeout := 5000; c_ownAdvIdle := 0 |} 1000)
                        (EvHsComplete 30000 30000)) (EvRecv 2000) in
   let l := [EvSentAE 2100; EvWake 6000 100; EvSentAE 6000; EvWake 7000 100; EvRecv 6100; EvBlocked 1; EvWake 10100 100; EvSentAE 10100; EvRecv 10200] in
   hsComplete s0 = true /\ closeErr s0 = None /\ no_close_requests l /\ wakes_in_time s0 l /\ kaSent (run s0 [EvSentAE 2100; EvWake 6000 100]) = true.
@@ -428,9 +428,22 @@ Theorem C17_keepalive_respects_peer : forall s p a, 0 < a -> kaInterval (applyTP
 Proof. exact applyTP_respects_peer. Qed.
 Print Assumptions C17_keepalive_respects_peer.
 
+(** ... and half of the period this endpoint itself put on the wire (a spec-driven client may advertise less than it
+    enforces; the peer applies the minimum of both advertised values; repo 97504e3) *)
+Theorem C17_keepalive_respects_own_advertised : forall s p a, 0 < c_ownAdvIdle (cf s) ->
+  kaInterval (applyTP s p a) <= c_ownAdvIdle (cf s) / 2.
+Proof. exact applyTP_respects_own_advertised. Qed.
+Print Assumptions C17_keepalive_respects_own_advertised.
+
+(** regression: the spec advertises 4 s, Config.MaxIdleTimeout 13 s, KeepAlivePeriod 6.6 s, the server 18 s: interval 2 s, not 6.5 s *)
+Example C17_keepalive_respects_own_advertised_regression :
+  kaInterval (applyTP (init {| c_client := true; c_keepAlivePeriod := 6600; c_maxIdleTimeout := 13000; c_hsIdleTimeout := 5000; c_ownAdvIdle := 4000 |} 1) 18000 18000) = 2000.
+Proof. reflexivity. Qed.
+Print Assumptions C17_keepalive_respects_own_advertised_regression.
+
 (** regression: own idle timeout 15 s, KeepAlivePeriod 7.5 s, peer advertises 2 s (parsed as 5 s): interval 1 s, not 2.5 s *)
 Example C17_keepalive_respects_peer_regression :
-  kaInterval (applyTP (init {| c_client := true; c_keepAlivePeriod := 7500; c_maxIdleTimeout := 15000; c_hsIdleTimeout := 5000 |} 1) 5000 2000) = 1000.
+  kaInterval (applyTP (init {| c_client := true; c_keepAlivePeriod := 7500; c_maxIdleTimeout := 15000; c_hsIdleTimeout := 5000; c_ownAdvIdle := 0 |} 1) 5000 2000) = 1000.
 Proof. reflexivity. Qed.
 Print Assumptions C17_keepalive_respects_peer_regression.
 
@@ -483,7 +496,7 @@ Print Assumptions C17_simulated_side_example.
 
 (** ** Non-vacuity *)
 
-Definition ex_cfg : cfg := {| c_client := true; c_keepAlivePeriod := 4000; c_maxIdleTimeout := 10000; c_hsIdleTimeout := 5000 |}.
+Definition ex_cfg : cfg := {| c_client := true; c_keepAlivePeriod := 4000; c_maxIdleTimeout := 10000; c_hsIdleTimeout := 5000; c_ownAdvIdle := 0 |}.
 Definition ex_s : st := step (init ex_cfg 1000) (EvHsComplete 30000 30000).
 
 (** a history that ends in the idle timeout, exactly at the bound of [C17_idle_not_early] *)
